@@ -28,7 +28,8 @@ Frame ==
          \* C03: every complete transmission of the caller's request - a transparent re-send on another
          \* connection included - carried exactly the caller's body
          /\ ("reqok" \in DOMAIN Ev) => Ev.reqok
-         /\ CASE Ev.sid = 0 /\ Ev.out \in {"ok", "abandoned"} -> Ev.own   \* served on another connection
+         /\ CASE ("illegal" \in DOMAIN Ev) /\ Ev.illegal -> Ev.out = "exc:LocalProtocolError" /\ Ev.sid = 0
+              [] Ev.sid = 0 /\ Ev.out \in {"ok", "abandoned"} -> Ev.own   \* served on another connection
               [] Ev.sid = 0 /\ Ev.out = "cancelled" -> TRUE
               [] Ev.sid # 0 /\ Ev.retried -> RetErr(Ev.sid, TRUE)         \* whatever the final outcome was
               [] Ev.out = "ok" -> RetOk(Ev.sid, Ev.blen, Ev.own)
@@ -38,6 +39,8 @@ Frame ==
     [] Ev.e = "END" ->
          /\ UNCHANGED vars
          /\ NoWedge({Ev.live[j] : j \in DOMAIN Ev.live})
+         \* ... and the client is not busy-looping (it waits for the network, or finishes)
+         /\ ("spin" \in DOMAIN Ev) => ~Ev.spin
          \* Credit (C13): no stream of a server that respects the windows is left waiting for
          \* credit the client has not returned
          /\ Ev.srvblocked = <<>>
